@@ -426,8 +426,9 @@ def compile_check(chk, n):
         chk.count(("compile", src), nq >= 2 or any("\n" in p and ("'" in p) for p in pieces), kind="compile-error-line")
         # Django's get_exception_info reports line 0 for a token that spans several lines: compare template_debug only for one-line tags
         if got_msg != want or (got_dbg != want and "\n" not in bad):
-            chk.fail("c09-lineno-offset", "compile path: " + what, {"kind": "compile", "source": src, "expected_line": want,
-                                                                   "message_line": got_msg, "template_debug_line": got_dbg})
+            # no `Invalid block tag on line N` message at all: the source did not reach the parser as the expected token stream
+            chk.fail("c09-lineno-offset" if got_msg is not None else "c09-compile-path", "compile path: " + what,
+                     {"kind": "compile", "source": src, "expected_line": want, "message_line": got_msg, "template_debug_line": got_dbg})
     # the patched compile keeps a quoted %} : renders it
     try:
         out = Template("{% firstof 'a%}b' %}", engine=eng).render(__import__("django").template.Context({}))
@@ -757,6 +758,31 @@ def replay(path):
         set_dotall(bool(_state["ambient_flags"] & re.DOTALL))
         return 1 if f else 0
     if case.get("kind") == "det":
-        print("impl:", run_impl_det(case["text"], case.get("lineno", 1), case.get("start", 0)))
-        print("spec:", spec_scan(case["text"], 2))
+        o = run_impl_det(case["text"], case.get("lineno", 1), case.get("start", 0))
+        r = spec_scan(case["text"], 2)
+        ln, st = case.get("lineno", 1), case.get("start", 0)
+        want = ("toks", [(2, case["text"][2:r[1] - 2].strip(), st, st + r[1], ln)]) if r[0] == "closed" else r[:-1]
+        print("impl:", o)
+        print("spec:", want)
+        return 0 if o == want else 1
+    if case.get("kind") == "lexv":
+        set_dotall(bool(case["dotall"]))
+        toks = run_impl_lexv(case["source"], case.get("verbatim"))
+        f = local_oracle(case["source"], toks)
+        print("DebugLexer(verbatim=%r):" % case.get("verbatim"), toks)
+        print("oracle:", f)
+        set_dotall(bool(_state["ambient_flags"] & re.DOTALL))
+        return 1 if f else 0
+    if case.get("kind") == "compile" and "source" in case:
+        from django.template import Engine, Template
+        src = case["source"]
+        try:
+            Template(src, engine=Engine(debug=True))
+            print("compiled")
+        except Exception as e:  # noqa
+            print("raised %s: %s ; template_debug line %r ; expected line %r" % (
+                type(e).__name__, e, (getattr(e, "template_debug", None) or {}).get("line"), case.get("expected_line")))
+            m = re.search(r"Invalid block tag on line (\d+)", str(e))
+            return 0 if (m and int(m.group(1)) == case.get("expected_line")) else 1
+        return 1
     return 0
